@@ -8,6 +8,11 @@ Inductive case :=
 | CMap (p : pipeline) (inputs : alist) (S : option (list str)) (auto : bool).
     (* pipeline.map(inputs, output_names=S, auto_subpipeline=auto, storage="dict", parallel=False) *)
 
+(* Pipeline([...]) adds the functions one at a time and validates after every add; the consistency of defaults
+   is judged against the outputs known SO FAR, so a listing order can be rejected although the whole list is fine *)
+Definition constructible (p : pipeline) : bool :=
+  wf_pipelineb p && forallb (fun k => consistent_defaults (firstn k p)) (seq 1 (length p)).
+
 Definition body := Sym.body.
 Definition pick := Sym.pick.
 
@@ -17,10 +22,10 @@ Definition sx_map_result (r : alist * list call) : sx :=
 Definition run (c : case) : sx :=
   match c with
   | CSub p Iq Sq =>
-      if wf_pipelineb p then sx_of_result (fun p' => sx_strs (sort_strs (map fid p'))) (subpipeline p Iq (Some Sq))
+      if constructible p then sx_of_result (fun p' => sx_strs (sort_strs (map fid p'))) (subpipeline p Iq (Some Sq))
       else bad_case
   | CMap p inputs Sq auto =>
-      if wf_pipelineb p then sx_of_result sx_map_result (map_run body pick p inputs Sq auto) else bad_case
+      if constructible p then sx_of_result sx_map_result (map_run body pick p inputs Sq auto) else bad_case
   end.
 
 (* ------------------------------------------------------------------ the executable statement *)
@@ -74,9 +79,9 @@ Definition all_leaf_outputs (p : pipeline) : list str :=
 Definition spec_ok (c : case) (obs : sx) : bool :=
   match c with
   | CSub p Iq Sq =>
-      if wf_pipelineb p then judge p Iq Sq (sub_ok p Iq Sq true) (sub_ok p Iq Sq false) obs else true
+      if constructible p then judge p Iq Sq (sub_ok p Iq Sq true) (sub_ok p Iq Sq false) obs else true
   | CMap p inputs Sq auto =>
-      if negb (wf_pipelineb p) then true
+      if negb (constructible p) then true
       else
         let Iq := akeys inputs in
         match Sq with
